@@ -387,6 +387,23 @@ def run(ctx):
         comp = rng.random() < 0.3
         cases.append({'ids': ids, 'version': 33, 'edition': 4, 'nsub': rng.choice([1, 2]), 'compressed': comp, 'forced': '-',
                       'seed': rng.randrange(1, 2 ** 32), 'maxrep': 3, 'features': {'repeated-siblings': 1}, 'shared': comp})
+    # a replication whose repetitions differ in what they contain: a nested delayed replication with count 0 in a middle
+    # repetition and a non-zero count later (a repetition that yields nothing must not end the enclosing envelope)
+    for k in range(ctx.n(16, 160)):
+        a, b2, c3 = rng.sample([4004, 4005, 12001, 1001, 2001, 5002, 20011], 3)
+        reps = rng.choice([3, 4])
+        inner = [rng.choice([1, 2]) for _ in range(reps)]
+        inner[rng.randrange(0, reps - 1)] = 0
+        inner[-1] = rng.choice([1, 2])
+        if k % 2:
+            ids = [a, 102000 + reps, b2, 101000, 31001, c3]
+            counts = inner
+        else:
+            ids = [a, 102000, 31001, b2, 101000, 31001, c3]
+            counts = [reps] + inner
+        cases.append({'ids': ids, 'version': 33, 'edition': 4, 'nsub': rng.choice([1, 2]), 'compressed': False,
+                      'forced': '31001=' + '.'.join(map(str, counts)), 'seed': rng.randrange(1, 2 ** 32), 'maxrep': 3,
+                      'features': {'empty-middle-repetition': 1}, 'shared': True})
     # the same flat descriptor list in every subset, but a DIFFERENT bitmap per subset (uncompressed): attributes hang
     # on different owners from subset to subset
     for k in range(ctx.n(24, 300)):
